@@ -362,11 +362,29 @@ def _r6(ctx):
     kfl = Flow(kp, "naunet/species.py")
     CLS = ("param", "cls")
     KE, KP, DEF = ("attr", CLS, "_known_elements"), ("attr", CLS, "_known_pseudoelements"), ("attr", CLS, "default_pseudoelements")
-    both_empty = ("bool", "And", (("unop", "Not", KE), ("unop", "Not", KP)))
     rets = [(simp(f.value), tuple((simp(g), p) for g, p in f.guards)) for f in kfl.facts if f.kind == "return"]
-    want = {(DEF, ((both_empty, True),)), (KP, ((both_empty, False),))}
-    alt = {(DEF, ((("bool", "And", (both_empty[2][1], both_empty[2][0])), True),)), (KP, ((("bool", "And", (both_empty[2][1], both_empty[2][0])), False),))}
-    okp = set(rets) in (want, alt)
+
+    # decide by truth table over (elements configured?, pseudo-elements configured?), whatever the spelling of the conditions
+    def ev(c, env):
+        if c in env:
+            return env[c]
+        if c[0] == "unop" and c[1] == "Not":
+            x = ev(c[2], env)
+            return None if x is None else not x
+        if c[0] == "bool":
+            xs = [ev(x, env) for x in c[2]]
+            if any(x is None for x in xs):
+                return None
+            return all(xs) if c[1] == "And" else any(xs)
+        return None
+    okp = bool(rets)
+    for ke in (False, True):
+        for kp_ in (False, True):
+            env = {KE: ke, KP: kp_}
+            taken = [v for v, gs in rets if all(ev(g, env) is not None and ev(g, env) == p for g, p in gs)]
+            undec = any(ev(g, env) is None for v, gs in rets for g, p in gs)
+            wantv = DEF if (not ke and not kp_) else KP
+            okp = okp and not undec and len(taken) >= 1 and taken[0] == wantv
     ctx.check(okp, "R6", "Species.known_pseudoelements:configured list", ("naunet/species.py", kp.lineno),
               "the default pseudo-elements are used only when neither list was configured; otherwise exactly the configured pseudo-elements" if okp else
               "the pseudo-element list consulted by _create_species is not `configured list, or the defaults when nothing at all is configured`: with elements configured and no "
